@@ -61,6 +61,18 @@ def decode(acc, guard, stream, fault, wit):
     return outcome
 
 
+def deeply_nested(depth, code=279, vendor=None, app=16777251, cmd=316):
+    """A well-framed message whose single AVP is a dictionary Grouped AVP nested `depth` times (built iteratively)."""
+    import struct
+    body = struct.pack(">IB", 1, 0x40) + (9).to_bytes(3, "big") + b"x" + bytes(3)
+    for _ in range(depth):
+        if vendor is None:
+            body = struct.pack(">IB", code, 0x40) + (8 + len(body)).to_bytes(3, "big") + body
+        else:
+            body = struct.pack(">IB", code, 0xc0) + (12 + len(body)).to_bytes(3, "big") + struct.pack(">I", vendor) + body
+    return b"\x01" + (20 + len(body)).to_bytes(3, "big") + b"\x80" + cmd.to_bytes(3, "big") + struct.pack(">III", app, 7, 8) + body
+
+
 def faults_for(g, lm, level):
     """Yield (fault name, mutated stream)."""
     r = g.rng
@@ -164,6 +176,8 @@ def malformed_inputs(rng):
         ("valid-then-garbage", ok_dwr + bytes(rng.randrange(256) for _ in range(23))),
         ("huge-declared-length", b"\x01\xff\xff\xfc\x80\x00\x01\x18" + bytes(40)),
     ]
+    out += [("deeply-nested-grouped-500", deeply_nested(500)), ("deeply-nested-grouped-3000", deeply_nested(3000)),
+            ("deeply-nested-grouped-in-dwr", deeply_nested(900, app=0, cmd=280))]
     # framed, decodable (or nearly) application and base messages whose *content* is hostile: the bytes pass the splitter and
     # mostly the decoder, and reach the code that looks inside messages (logging, addressing rules, base-message validation)
     L = N.LOCAL
@@ -358,6 +372,13 @@ def run_batch(b):
     elif b["kind"] == "typed":
         for fault, stream, cname in typed_faults(g):
             decode(acc, guard, stream, fault, {"class": cname})
+        # nesting depth is an attacker's choice too: 4 KB are enough for 500 levels, a 16 MB message for two million
+        for code, vendor in ((279, None), (284, None), (260, None), (1401, 10415), (628, 10415)):
+            for depth in (2, 40, 200, 340, 500, 1000, 5000, 40000):
+                if depth * 8 + 40 > 400000:
+                    continue
+                decode(acc, guard, deeply_nested(depth, code, vendor), "deep-nesting:%d:depth%d" % (code, depth), {"depth": depth, "code": code})
+                acc.counters["deep_nesting_decodes"] += 1
         acc.sample({"typed_fault_example": fault})
     elif b["kind"] == "random":
         for _ in range(b["n"]):
@@ -416,7 +437,7 @@ def main(tier, seed):
                            "every library error derives from BaseException and lives in bromelia.exceptions",
                            "memory growth is bounded by the iteration bound plus RLIMIT_AS on the worker"],
                           t0, extra_cov={"sweep24_exhaustive": not q},
-                          require_counters=("decodes", "library_errors", "guard_armed", "node_scenarios", "stayed_responsive"))
+                          require_counters=("decodes", "library_errors", "guard_armed", "node_scenarios", "stayed_responsive", "deep_nesting_decodes"))
 
 
 def replay(w):
